@@ -54,7 +54,7 @@ func (c16) Runs(t Tier) int {
 }
 func (c16) RecordWidths() map[string]int { return nil }
 func (c16) RequiredProbes() []string {
-	return []string{"file-build", "symlink-build", "plain-dir-build", "sharded-dir-build", "auto-sharded-dir-build", "recursive-build", "recursive-rooted-at-file", "retry-after-transient-fault", "well-known-error-value", "quick-builder", "fault-on-root-commit", "torn-write", "crash-between-child-and-parent", "enospc", "source-error", "multi-level-file", "nested-shards", "empty-file"}
+	return []string{"file-build", "symlink-build", "plain-dir-build", "sharded-dir-build", "auto-sharded-dir-build", "recursive-build", "empty-directory", "recursive-rooted-at-file", "retry-after-transient-fault", "well-known-error-value", "quick-builder", "fault-on-root-commit", "torn-write", "crash-between-child-and-parent", "enospc", "source-error", "multi-level-file", "nested-shards", "empty-file"}
 }
 
 type c16Scenario struct {
@@ -199,6 +199,10 @@ func (c16) Run(ts *tape.Set, tier Tier) *Result {
 			dspec.Mined = 0
 		}
 		names := gen.Names(dspec)
+		if which == 2 && dspec.Seed%5 == 0 {
+			names = nil // an empty directory
+			res.probe("empty-directory")
+		}
 		if which == 4 {
 			for i := range names {
 				names[i] = names[i] + "-" + strings.Repeat("n", 150)
@@ -241,7 +245,13 @@ func (c16) Run(ts *tape.Set, tier Tier) *Result {
 		nFiles := 0
 		var mk func(p string, depth int)
 		mk = func(p string, depth int) {
-			n := 1 + int(r.Next()%4)
+			n := int(r.Next() % 5) // 0: an empty directory
+			if depth == 0 && n == 0 {
+				n = 1
+			}
+			if n == 0 {
+				res.probe("empty-directory")
+			}
 			for i := 0; i < n; i++ {
 				name := fmt.Sprintf("e%d", i)
 				switch r.Next() % 4 {
